@@ -36,9 +36,9 @@ UNATTRIBUTED = {"ev.life", "ev.report", "ev.all"}
 TIERS = {
     "quick": dict(fixtures=["min", "comp", "ortho", "strat", "auto", "peers", "util", "plancap", "bare", "floaty", "utilortho", "selutil"], records=900, chunks=3,
                   variants=["plain", "asan", "assert"], extra_variant_fixtures=["min", "ortho", "auto"],
-                  mc=["min", "comp", "util", "selutil"], systematic={"auto": 2, "ortho": 1}),
+                  mc=["min", "comp", "util", "selutil"], mc_pair=["min"], systematic={"auto": 2, "ortho": 1}),
     "thorough": dict(fixtures=["min", "comp", "ortho", "strat", "auto", "peers", "oroot", "wide", "plan", "selpeers", "util", "plancap", "bare", "floaty", "utilortho", "selutil"],
-                     records=12000, chunks=12, variants=["plain", "asan", "assert", "dev", "plain11"], mc=["min", "comp", "ortho", "oroot", "util", "peers", "selutil", "utilortho"],
+                     records=12000, chunks=12, variants=["plain", "asan", "assert", "dev", "plain11"], mc=["min", "comp", "ortho", "oroot", "util", "peers", "selutil", "utilortho"], mc_pair=["min", "comp", "ortho"],
                      systematic={"min": 12, "comp": 10, "ortho": 8, "strat": 6, "auto": 10, "peers": 6, "oroot": 8, "plan": 6}),
 }
 
@@ -178,6 +178,19 @@ def mc_results(tier, log=print):
                                   error=tail, props=mc.PROPS + mc.INVS))
         shutil.rmtree(r["dir"], ignore_errors=True)
         log("mc %s: %s %s %.0fs" % (fxname, "ok" if r["ok"] else "FAILED", r["stats"], r["secs"]))
+    # C08: the save / load pair model (every configuration reachable by single requests x every buffer saved in another)
+    for fxname in cfg.get("mc_pair", []):
+        fx = fixture(fxname)
+        props, invs = ["P_Load", "P_SaveUntouched"], ["RoundTrip", "WellFormedState"]
+        r = mc.run(fx, tier, dev=open_switches(), timeout=3000 if tier == "thorough" else 900, menu=mc.pair_menu(fx), props=props, invs=invs)
+        tail = ""
+        if not r["ok"]:
+            i = r["out"].find("Error:")
+            tail = r["out"][i:i + 3000]
+        out["models"].append(dict(fixture=fxname + "/pair", ok=r["ok"], violated=r["violated"], stats=r["stats"], secs=r["secs"],
+                                  menu={k: (v if not isinstance(v, list) else len(v)) for k, v in r["menu"].items()}, error=tail, props=props + invs))
+        shutil.rmtree(r["dir"], ignore_errors=True)
+        log("mc %s/pair: %s %s %.0fs" % (fxname, "ok" if r["ok"] else "FAILED", r["stats"], r["secs"]))
     json.dump(out, open(rfile, "w"))
     return out
 
@@ -259,7 +272,7 @@ def primary(run, ds):
     return None, []
 
 
-MC_PROPS = {"C01": ["WellFormedState", "WellFormedCallbacks"], "C02": ["P_Prescribed"], "C12": ["P_Prescribed"], "C08": ["RoundTrip"], "C03": ["P_Balanced"],
+MC_PROPS = {"C01": ["WellFormedState", "WellFormedCallbacks"], "C02": ["P_Prescribed"], "C12": ["P_Prescribed"], "C08": ["RoundTrip", "P_Load", "P_SaveUntouched"], "C03": ["P_Balanced"],
             "C04": ["P_Guards"], "C05": ["P_Delivery"]}
 
 
